@@ -246,6 +246,7 @@ type Exec struct {
 	pathDeadline  time.Time
 	stubs      map[string]*ssa.Function
 	stubOff    map[string]bool
+	stubOn     map[string]bool
 
 	violations []Violation
 	reaches    []string
@@ -750,6 +751,11 @@ func (x *Exec) callSSA(fn *ssa.Function, args []Value, env []Value) Value {
 		if st, ok := x.stubs[fn.String()]; ok && !x.stubOff[fn.String()] {
 			x.stubsHit["harness-stub:"+fn.String()] = true
 			fn = st
+		} else if len(x.stubOn) > 0 && x.stubOn[fn.String()] {
+			if st, ok := x.stubs["opt:"+fn.String()]; ok {
+				x.stubsHit["harness-stub:"+fn.String()] = true
+				fn = st
+			}
 		}
 	}
 	if r, ok := x.intrinsic(fn, args); ok {
